@@ -347,6 +347,10 @@ func runCacheCase(r *Run, mode string, seed int64, sample bool) {
 		cfg.metrics = rng.Intn(8) != 0
 		cfg.nKeys = 2 + rng.Intn(6)
 		cfg.script = scriptNames[rng.Intn(len(scriptNames))]
+		if cfg.script == "shrink_del" {
+			cfg.ignoreInternal = rng.Intn(3) == 0
+			cfg.su = false
+		}
 		if cfg.script == "benign_fill" {
 			cfg.nKeys = 8 + rng.Intn(9)
 			cfg.maxCost = int64(30 + rng.Intn(90))
@@ -542,6 +546,9 @@ func cacheCaseBody(r *Run, rng *rand.Rand, cfg cacheCfg, nClients int, sample bo
 				if rng.Intn(2) == 0 {
 					rec.cost = int64(1 + rng.Intn(70))
 				}
+			}
+			if forced != nil && forced.cost > 0 {
+				rec.cost = forced.cost
 			}
 			emit("spawn %s updmax %d", g.name, rec.cost)
 		default:
